@@ -253,25 +253,71 @@ theorem blockdep_safe (a : Gen.AccRow) (prev op : BlockOp) (c : LoopCtx) (bd : N
   exact ⟨outer_le c bd hb, fun f k hfk ia oa hi ho => loop_safe c bd hb f k hfk ia oa hi ho⟩
 
 open VelaVerif.Blockdep VelaVerif.NpuAccess in
-/-- `blockdep_safe` is about the model's *own* input volume, and that volume is not what the job reads: for the
-    ABS (1-row blocks) → 3×1 SAME convolution (2-row blocks) pair, `calc_blockdep` returns 2 with the real padding
-    `(top 0, right 1)`, and 1 as soon as the `right` field carries the value of `top` — the y start of forward job 1
-    is taken from `padding.right` (rows [1,3) instead of the rows [2,4) its OFM block needs), so the producer's
-    last block (row 3) is not seen.  The check reproduces the overlap on the real stream (known finding
-    `blockdep-first-job-y-uses-padding-right`). -/
-theorem blockdep_padding_right_witness :
-    calcBlockdep witAcc (some witPrev) (witOp 1) = some 2 ∧
-    calcBlockdep witAcc (some witPrev) (witOp 0) = some 1 ∧
+/-- **The input volume is the receptive field** (true since the y start is taken from `padding.top`): the volume
+    `get_first_job_input_volume` returns for forward job `f` belongs to the OFM block `oc` = block number
+    `f // ifm_depth_blocks`; it starts exactly where the rows / columns that block needs start (clipped at 0),
+    ends at or after the last row / column it needs (`oc·stride + (block−1)·stride + dilated kernel − top/left
+    padding`, kernels up to the `ofm_block_max` limit the function passes as sub-kernel size), and spans the job's
+    IFM depth slice.  Together with `blockdep_safe` and `hull_covers`: `f + k < calc_blockdep` implies that what job
+    `f` reads does not meet what the `k`-th block from the end of the previous operation writes. -/
+theorem first_job_volume_covers_receptive_field (a : Gen.AccRow) (ifmSize ofmSize : Blk3) (ibd : Int) (blk : Blk3)
+    (k : Kernel) (p : Padding) (f : Int) (ar : Area)
+    (h : getFirstJobInputVolume a ifmSize ofmSize ibd blk k p f = some (some ar))
+    (hkh : (k.height - 1) * k.dilationY + 1 ≤ a.ofmBlockMax.height)
+    (hkw : (k.width - 1) * k.dilationX + 1 ≤ a.ofmBlockMax.width)
+    (huh : 0 < a.ifmUblock.height) (huw : 0 < a.ifmUblock.width) :
+    ∃ oc, getOffsetBlockCoords ofmSize blk (f / roundUpDivide ifmSize.depth ibd) = some (some oc) ∧
+      ar.start.y = max 0 (oc.y * k.strideY - p.top) ∧
+      oc.y * k.strideY + (blk.height - 1) * k.strideY + ((k.height - 1) * k.dilationY + 1) - p.top ≤ ar.stop.y ∧
+      ar.start.x = max 0 (oc.x * k.strideX - p.left) ∧
+      oc.x * k.strideX + (blk.width - 1) * k.strideX + ((k.width - 1) * k.dilationX + 1) - p.left ≤ ar.stop.x ∧
+      ar.start.z = (f % roundUpDivide ifmSize.depth ibd) * ibd ∧ ar.stop.z = ar.start.z + ibd :=
+  firstJob_covers a ifmSize ofmSize ibd blk k p f ar h hkh hkw huh huw
+
+/-- every accelerator row meets the micro-block hypotheses of `first_job_volume_covers_receptive_field` -/
+theorem ublock_positive : ∀ a ∈ Gen.accelerators, 0 < a.ifmUblock.height ∧ 0 < a.ifmUblock.width := by decide
+
+open VelaVerif.Blockdep VelaVerif.NpuAccess in
+/-- REDUCE_SUM reads every IFM channel: its input volume spans the whole IFM depth (one depth block). -/
+theorem reduce_sum_full_depth (a : Gen.AccRow) (op : BlockOp) (hc : op.isConv2D = false) (hr : op.isReduceSum = true) :
+    getIfmOfmBlockDepth a op = some op.ifm.shape.depth := by
+  simp [getIfmOfmBlockDepth, hc, hr]
+
+open VelaVerif.Blockdep VelaVerif.NpuAccess in
+/-- The coordinate shortcut of `intersects` is taken only when IFM and previous OFM are the same view of memory
+    (shape, tiles, layout, element size, strides); otherwise per-row address ranges are compared. -/
+theorem coordinate_shortcut_guard (ifm prevOfm : FMap) (is ie os oe : Pt)
+    (h : ifm.nhcwb16 ≠ prevOfm.nhcwb16 ∨ ifm.elemBytes ≠ prevOfm.elemBytes ∨ getStrides ifm ≠ getStrides prevOfm) :
+    Blockdep.intersects ifm is ie prevOfm os oe =
+      rangeListsOverlap (getAddressRangesForArea ifm is.y is.x is.z ie.y ie.x ie.z)
+        (getAddressRangesForArea prevOfm os.y os.x os.z oe.y oe.x oe.z) := by
+  unfold Blockdep.intersects
+  have : ¬ (ifm.shape = prevOfm.shape ∧ ifm.tiles = prevOfm.tiles ∧ ifm.nhcwb16 = prevOfm.nhcwb16 ∧
+      ifm.elemBytes = prevOfm.elemBytes ∧ getStrides ifm = getStrides prevOfm) := by
+    rintro ⟨_, _, h1, h2, h3⟩
+    rcases h with h | h | h
+    · exact h h1
+    · exact h h2
+    · exact h h3
+  simp only [this, if_false]
+
+open VelaVerif.Blockdep VelaVerif.NpuAccess in
+/-- Regression witness (was the known finding `blockdep-first-job-y-uses-padding-right`: the unrepaired code returned
+    2 here, because the y start of forward job 1 was computed from `padding.right` = 1, rows [1,3) instead of [2,4)):
+    ABS with 1-row blocks → 3×1 SAME convolution with 2-row blocks gets BLOCKDEP 1; the input volume of forward job 1
+    is rows [2,4) and meets the producer's last block (row 3). -/
+theorem blockdep_padding_top_witness :
+    calcBlockdep witAcc (some witPrev) (witOp 1) = some 1 ∧
     (∃ c, classify witAcc (some witPrev) (witOp 1) = some (Path.loop, some c) ∧
-      c.inArea 1 = some (some ⟨⟨0, 1, 0⟩, ⟨10, 3, 16⟩⟩) ∧ c.outArea 0 = some (some ⟨⟨0, 3, 0⟩, ⟨8, 4, 16⟩⟩)) := by
-  refine ⟨by decide +kernel, by decide +kernel, ?_⟩
+      c.inArea 1 = some (some ⟨⟨0, 2, 0⟩, ⟨10, 4, 16⟩⟩) ∧ c.outArea 0 = some (some ⟨⟨0, 3, 0⟩, ⟨8, 4, 16⟩⟩)) := by
+  refine ⟨by decide +kernel, ?_⟩
   refine ⟨_, rfl, by decide +kernel, by decide +kernel⟩
 
 -- non-vacuity of `blockdep_safe`: the witness pair is on the loop path and gets a value
 open VelaVerif.Blockdep VelaVerif.NpuAccess in
 example : ∃ c bd, classify witAcc (some witPrev) (witOp 1) = some (Path.loop, some c) ∧
     calcBlockdep witAcc (some witPrev) (witOp 1) = some bd ∧ 0 < bd :=
-  ⟨_, 2, rfl, by decide +kernel, by decide⟩
+  ⟨_, 1, rfl, by decide +kernel, by decide⟩
 
 open VelaVerif.Blockdep VelaVerif.NpuAccess in
 theorem blockdep_le_max (a : Gen.AccRow) (prev : Option BlockOp) (op : BlockOp) (bd : Nat)
